@@ -152,11 +152,28 @@ class C07(Prop):
                     a = rng.choice(c['assets'])
                     holes = {a: set(rng.sample(inner, min(len(inner), rng.randint(1, 3))))}
                     c['_hole_T'] = rng.choice(sorted(holes[a]))
+                    if rng.random() < 0.4:
+                        # a market holiday: NO asset has a bar that day; the cut falls on the business day before it
+                        from .c13 import expected as sched_expected2
+                        r_ = cfg['rebal']
+                        sc_days = set(t // DAY for t in sched_expected2(
+                            {'which': {'weekly': 'weekly', 'daily': 'daily', 'eom': 'end_of_month', 'bah': 'buy_and_hold'}[r_[0]],
+                             'start': cfg['start'], 'stop': cfg['end'], 'pm': False, 'weekday': (r_[1] if r_[0] == 'weekly' else 'MON')}))
+                        on_sched = [d for d in inner if d in sc_days]
+                        if on_sched and rng.random() < 0.8:
+                            holes[a] = set([rng.choice(on_sched)])       # the holiday is a scheduled rebalance day
+                        holes = dict((b, set(holes[a])) for b in c['assets'])
+                        h = rng.choice(sorted(holes[a]))
+                        prev = h - 1
+                        while sl.weekday(prev) > 4:
+                            prev -= 1
+                        c['_hole_T'] = prev
+                        c['_holiday'] = True
                 c['market'] = csv_market(rng, c['assets'], d0, d1, c['exact'], late, holes)
                 c['stream'] += ':csv' + (':holes' if holes else '')
             days = sl.bdays_between(d0, d1)
             c['T'] = rng.choice(days) if days else d0
-            if c.get('_hole_T') is not None and rng.random() < 0.7:
+            if c.get('_hole_T') is not None and (rng.random() < 0.7 or c.get('_holiday')):
                 c['T'] = c['_hole_T']
             c.pop('_hole_T', None)
             if c['market']['kind'] == 'csv' and late and rng.random() < 0.6:
@@ -169,6 +186,9 @@ class C07(Prop):
                 c['T'] = c.pop('_force_T')
             c.pop('_force_T', None)
             c['mode_future'] = rng.choice(['rewrite', 'shuffle', 'remove'])
+            if c.pop('_holiday', None):
+                c['mode_future'] = 'remove'
+                c['stream'] += ':market-holiday'
             if c['market']['kind'] == 'csv' and rng.random() < 0.4:
                 # the bars of the cut day have an open but no close (yet); with the future removed they end their files
                 hit = False
